@@ -4,10 +4,11 @@ from __future__ import annotations
 
 import ast
 
-from tiv.astutil import body_walk, call_name, dotted, enclosing_stmt, guards, norm, short, stores_in, walk_local
+from tiv.astutil import ancestors as _anc, body_walk, call_name, dotted, enclosing_stmt, flatten_boolop, guards, kw, norm, short, stores_in, walk_local
+from tiv.match import match_expr
 from tiv.cfg import CFG, fmt_path
 from tiv.mutate import M
-from tiv.sem import trace, same_bool
+from tiv.sem import _bool, trace, same_bool
 
 RULES = {
     "R8": "who-may-write: every state cell of RenderIterator (loop, _padding, _padded_size, _render_args, _render_data, _closed, ...) is stored only by the "
@@ -68,8 +69,10 @@ def run(ck, m):
             ck.ob("R2", s.ast, p is None, f"{meth}(): state is changed by `{short(s.ast, 50)}` and a validation error can still be raised afterwards ({fmt_path(p) if p else ''}): "
                   "a rejected operation would leave the iterator half-updated", stmt=f"{meth}: {short(s.ast, 70)} after validation")
     nx = m.get(IT, "RenderIterator.__next__")
-    ck.ob("R1", nx, any(isinstance(s, ast.If) and norm(s.test) == "self._closed" and "StopIteration" in norm(s.body[0]) for s in body_walk(nx)),
-          "__next__ on a finalized iterator must raise StopIteration", stmt="__next__: closed -> StopIteration")
+    # a `raise StopIteration(...)` under `self._closed` (alone, or together with a test that the caught exception is the AttributeError
+    # of the deleted generator), at the top of __next__ or in a handler that catches AttributeError
+    from rules.common import closed_stop as _closed_stop
+    ck.ob("R1", nx, any(_closed_stop(r) for r in body_walk(nx)), "__next__ on a finalized iterator must raise StopIteration", stmt="__next__: closed -> StopIteration")
 
     # ---- R3 ----------------------------------------------------------------------------
     from rules.c09 import iterate_facts
@@ -83,15 +86,36 @@ def run(ck, m):
             pre[t.id] = st
     params = {a.arg for a in itf.args.args} - {"self"}
     post = [s for s in itf.body if s.lineno > yline]
-    ALLOWED = {"renderable", "frame_count", "definite", "loop", "CURRENT", "cache", "renderable_data", "render_data"}      # (names after role normalisation)
+    # a value captured before the first frame may be used by the render loop only if it does not depend on a cell a control method can
+    # write (set_*/seek): the source of every snapshot is traced, parameters stand for the cell they are stored into
+    from rules.c09 import mutable_cells
+    mutable = mutable_cells(m)
+    param_cell = {}
+    for t, st in stores_in(ast.Module(body=[s for s in itf.body if s.lineno < yline], type_ignores=[])):
+        if isinstance(st, ast.Assign) and isinstance(st.value, ast.Name) and st.value.id in params and (dotted(t) or "").startswith("self."):
+            param_cell[st.value.id] = dotted(t)
+
+    def cells_of(e):
+        out = set()
+        for n in ast.walk(e):
+            d = dotted(n) if isinstance(n, ast.Attribute) else None
+            if d and (d.startswith("renderable_data.") or d.startswith("self._renderable_data.")):
+                out.add("data." + d.split(".")[-1])
+            elif d and d.startswith("self.") and d.count(".") == 1:
+                out.add(d)
+            elif isinstance(n, ast.Name) and n.id in param_cell:
+                out.add(param_cell[n.id])
+        return out
     used = {}
     for s in post:
         for n in walk_local(s):
             if isinstance(n, ast.Name) and isinstance(n.ctx, ast.Load) and (n.id in pre or n.id in params):
                 used.setdefault(n.id, n)
     for nm, node in sorted(used.items()):
-        ck.ob("R3", enclosing_stmt(node), nm in ALLOWED,
-              f"_iterate reads `{nm}` during iteration, a value captured before the first frame ({short(pre.get(nm), 60) if nm in pre else 'parameter'}): a later "
+        src = trace(itf, pre[nm].value, keep=("renderable_data",)) if nm in pre and isinstance(pre[nm], ast.Assign) else ast.Name(id=nm, ctx=ast.Load())
+        dep = sorted(cells_of(src) & mutable)
+        ck.ob("R3", enclosing_stmt(node), not dep,
+              f"_iterate reads `{nm}` during iteration, a value captured before the first frame ({short(pre.get(nm), 60) if nm in pre else 'parameter'}) from {dep}, which a control method can change: a later "
               f"set_*() call would not take effect from the next rendered frame", stmt=f"_iterate: snapshot `{nm}` used after the dummy yield")
     ck.ob("R3", itf, True, "snapshot scan", stmt="_iterate: snapshot scan of the render loop")
     # renderable_data is the namespace object the setters write into
@@ -141,17 +165,36 @@ def run(ck, m):
     rs = m.get(RN, "Renderable.seek")
     isk = m.get(IT, "RenderIterator.seek")
 
-    def target_expr(fn, cur):
-        st = next((s for s in body_walk(fn) if isinstance(s, ast.Assign) and norm(s.targets[0]) == "frame" and isinstance(s.value, ast.IfExp)), None)
-        return (norm(st.value).replace(cur, "<CUR>"), st) if st else (None, None)
-    a, sa = target_expr(rs, "self._frame")
-    b, sb = target_expr(isk, "renderable_data.frame_offset")
-    canon = "offset if whence is Seek.START else <CUR> + offset if whence is Seek.CURRENT else frame_count + offset - 1"
+    # the seek target by role: the value stored as the renderable's current frame / recorded as frame_offset together with Seek.START;
+    # compared as traced expressions with the current position and the frame count abstracted
+    KEEP = ("whence", "offset")
+    sa = next((st for t, st in stores_in(ast.Module(body=rs.body, type_ignores=[])) if norm(t) == "self._frame" and isinstance(st, ast.Assign)), None)
+    ups = [c for c in body_walk(isk) if isinstance(c, ast.Call) and isinstance(c.func, ast.Attribute) and c.func.attr == "update" and norm(trace(isk, c.func.value)) == "self._renderable_data"]
+    up_def = [c for c in ups if kw(c, "seek_whence") is not None and norm(trace(isk, kw(c, "seek_whence"), keep=KEEP)) == "Seek.START" and kw(c, "frame_offset") is not None]
+    up_ind = [c for c in ups if kw(c, "seek_whence") is not None and norm(trace(isk, kw(c, "seek_whence"), keep=KEEP)) == "whence" and kw(c, "frame_offset") is not None]
+    va = sa.value if sa is not None else None
+    vb = kw(up_def[0], "frame_offset") if len(up_def) == 1 else None
+
+    def canon_target(fn, v, cur, cnt):
+        return None if v is None else norm(trace(fn, v, keep=KEEP)).replace(cur, "<CUR>").replace(cnt, "<N>")
+    a = canon_target(rs, va, "self._frame", "self.frame_count")
+    b = canon_target(isk, vb, "self._renderable_data.frame_offset", "self._renderable.frame_count")
+    canon = "offset if whence is Seek.START else <CUR> + offset if whence is Seek.CURRENT else <N> + offset - 1"
+    sb = enclosing_stmt(up_def[0]) if len(up_def) == 1 else None
     ck.ob("R5", sb or isk, a is not None and a == b, f"seek target differs: Renderable.seek `{a}` vs RenderIterator.seek `{b}`", stmt="seek: sibling target expressions agree")
     ck.ob("R5", sa or rs, a == canon, f"seek target must be START: offset; CURRENT: current+offset; END: frame_count+offset-1; found `{a}`", stmt="seek: canonical target expression")
-    for fn, nm in ((rs, "Renderable.seek"), (isk, "RenderIterator.seek")):
-        rt = [s for s in body_walk(fn) if isinstance(s, ast.If) and same_bool(fn, s.test, "not 0 <= frame < frame_count") and isinstance(s.body[-1], ast.Raise)]
-        ck.ob("R5", fn, len(rt) == 1, f"{nm}: the range test must be `not 0 <= frame < frame_count` -> raise", stmt=f"{nm}: range test")
+    for fn, nm, v, cnt, site in ((rs, "Renderable.seek", va, "self.frame_count", sa), (isk, "RenderIterator.seek", vb, "self._renderable.frame_count", sb)):
+        # the range test: the target is stored/recorded only under `0 <= <target> < <frame count>` and the complement raises (either
+        # polarity of the `if`, guard clause or enclosing test; canonical boolean form: chains, De Morgan, flipped operands)
+        okr = False
+        if v is not None and site is not None:
+            tv = norm(trace(fn, v, keep=KEEP))
+            inr = _bool(ast.parse(f"0 <= ({tv}) < ({cnt})", mode="eval").body)
+            outr = _bool(ast.parse(f"not 0 <= ({tv}) < ({cnt})", mode="eval").body)
+            ok_site = any(_bool(trace(fn, g_, keep=KEEP), neg=not b_) == inr for g_, b_ in guards(site))
+            ok_raise = any(isinstance(r_, ast.Raise) and any(_bool(trace(fn, g_, keep=KEEP), neg=not b_) == outr for g_, b_ in guards(r_)) for r_ in body_walk(fn))
+            okr = ok_site and ok_raise
+        ck.ob("R5", fn, okr, f"{nm}: the range test must be `not 0 <= frame < frame_count` -> raise", stmt=f"{nm}: range test")
     ind = next((s for s in isk.body if isinstance(s, ast.If) and norm(s.test) == "frame_count is FrameCount.INDEFINITE"), None)
     ck.need(ind is not None, "RenderIterator.seek: INDEFINITE branch not found")
     rej = next((s for s in ind.body if isinstance(s, ast.If) and isinstance(s.body[0], ast.Raise)), None)
@@ -173,10 +216,10 @@ def run(ck, m):
     if okrej is not None:
         ck.ob("R5", rej or ind, okrej, f"INDEFINITE seeks must reject exactly START&offset<0 or END&offset>0; found `{norm(rej.test) if rej else None}`" + (f" - for whence={wit[0]}, offset={wit[1]} it gives {wit[2]}" if wit else ""),
               stmt="seek[INDEFINITE]: rejection predicate")
-    ups = [c for c in body_walk(isk) if isinstance(c, ast.Call) and norm(c.func) == "renderable_data.update"]
-    want = {"frame_offset=offset, seek_whence=whence", "frame_offset=frame, seek_whence=Seek.START"}
-    got = {", ".join(f"{k.arg}={norm(k.value)}" for k in c.keywords) for c in ups}
-    ck.ob("R5", isk, got == want, f"seek must record (offset, whence) for INDEFINITE and (frame, START) for definite sources in a single update() each; found {sorted(got)}", stmt="seek: recorded by single update()")
+    ok_ups = len(ups) == 2 and len(up_def) == 1 and len(up_ind) == 1 and norm(trace(isk, kw(up_ind[0], "frame_offset"), keep=KEEP)) == "offset" \
+        and all({k.arg for k in c.keywords} == {"frame_offset", "seek_whence"} and not c.args for c in ups)
+    got = sorted(", ".join(f"{k.arg}={norm(k.value)}" for k in c.keywords) for c in ups)
+    ck.ob("R5", isk, ok_ups, f"seek must record (offset, whence) for INDEFINITE and (frame, START) for definite sources in a single update() each; found {got}", stmt="seek: recorded by single update()")
     g = CFG(isk)
     is_up = lambda n: n.kind == "stmt" and n.ast is not None and any(isinstance(c, ast.Call) and norm(c.func) == "renderable_data.update" for c in ast.walk(n.ast))  # noqa: E731
     p = g.search([g.entry], lambda n: n is g.exit_return, avoid=is_up, from_succ=False, edge_ok=lambda s, lab, d: not lab.startswith(("e:", "p:")))
